@@ -699,6 +699,10 @@ pub fn coord_nearest(set: f64, stored: i32) -> bool {
 pub fn gen_entries(rng: &mut Rng, n: usize, allow_leaf_ptrs: bool, wide: bool) -> Vec<REntry> {
     let mut v = Vec::with_capacity(n);
     let mut id: u64 = if rng.chance(1, 3) { 0 } else { rng.below(1 << 20) };
+    if rng.chance(1, 20) {
+        // right below the first id of zoom 32: runs that end on, or cross, the end of the z/x/y-addressable id domain
+        id = id_domain() - 1 - rng.below(6);
+    }
     let mut next_off: u64 = 0;
     let style = rng.below(4); // 0 contiguous, 1 back-references, 2 arbitrary, 3 mixed
     for i in 0..n {
@@ -851,6 +855,8 @@ pub struct ForeignOpts {
     /// Some(L): consecutive tile ids, run length 1, equal lengths L, contiguous offsets; only the last
     /// entry has a run > 1 (the most regular directory a fully populated zoom range produces)
     pub regular: Option<u32>,
+    /// 0: every padding site decides independently; k >= 1: only the k-th padding site (in file order) gets padding
+    pub gap_mode: u8,
 }
 
 /// Independent spec-level archive writer. Produces bytes + ground truth.
@@ -985,6 +991,31 @@ pub fn gen_foreign(rng: &mut Rng, o: &ForeignOpts) -> Foreign {
                 continue;
             }
             let list = &level[i..i + c];
+            // mixed directories: now and then place the leaf so that it ENDS (in leaf-section coordinates) exactly at the tile
+            // data offset of the tile entry that follows the pointer in the parent directory; that entry is then kept inline and
+            // its offset is written as 0 = "contiguous with the previous entry", which here is a leaf pointer
+            let mut force_inline_next = false;
+            if o.mixed_dirs && !o.align_gzip_leaves && i + c < level.len() && level[i + c].run_length > 0 && rng.chance(1, 2) {
+                let probe = enc(list, rng);
+                let want = level[i + c].offset.checked_sub(probe.len() as u64);
+                if let Some(w) = want {
+                    if w >= leaf_section.len() as u64 && w < (1 << 20) {
+                        leaf_section.resize(w as usize, 0xEE);
+                        ptrs.push(REntry { tile_id: list[0].tile_id, offset: w, length: probe.len() as u32, run_length: 0 });
+                        leaf_first_ids.push(list[0].tile_id);
+                        leaf_section.extend_from_slice(&probe);
+                        n_leaves += 1;
+                        chunked = true;
+                        i += c;
+                        force_inline_next = true;
+                    }
+                }
+            }
+            if force_inline_next {
+                ptrs.push(level[i]);
+                i += 1;
+                continue;
+            }
             if o.alias_leaf_offset && n_leaves == 1 && leaf_section.len() < 127 {
                 let g = 127 - leaf_section.len();
                 leaf_section.extend(std::iter::repeat(0xEE).take(g));
@@ -1062,8 +1093,11 @@ pub fn gen_foreign(rng: &mut Rng, o: &ForeignOpts) -> Foreign {
     }
     let mut file: Vec<u8> = vec![0u8; 127];
     let mut gaps: Vec<(u64, u64)> = Vec::new();
+    let site = std::cell::Cell::new(0u8);
     let pad = |file: &mut Vec<u8>, rng: &mut Rng, gaps: &mut Vec<(u64, u64)>, max: usize| {
-        if o.gaps && rng.chance(1, 2) {
+        site.set(site.get() + 1);
+        let here = if o.gap_mode == 0 { rng.chance(1, 2) } else { site.get() == o.gap_mode };
+        if o.gaps && here {
             let g = rng.usize(1, max);
             let a = file.len() as u64;
             file.extend(std::iter::repeat(0xA5).take(g));
@@ -1186,5 +1220,6 @@ pub fn gen_foreign_opts(rng: &mut Rng, codec: u8, max_entries: usize) -> Foreign
         mixed_dirs: rng.chance(1, 4),
         alias_leaf_offset: rng.chance(1, 6),
         regular: None,
+        gap_mode: if rng.chance(1, 2) { 0 } else { rng.range(1, 5) as u8 },
     }
 }
